@@ -100,6 +100,27 @@ class Ctx:
     def old_heap(self):
         return self.fr.entry_heap
 
+    # calling real repo functions from lemma scripts / handlers
+    def call(self, qualname, args=(), kwargs=None, self_sv=None):
+        fi = self.ex.repo.func(qualname)
+        return self.ex.call_function(fi, list(args), dict(kwargs or {}), self.fr, self_sv, None)
+
+    def new_object(self, clsname, **fields):
+        ci = self.ex.repo.resolve_class(clsname)
+        r = self.st.new_ref()
+        self.st.write("$type", r, z3.IntVal(ci.cid))
+        for k, v in fields.items():
+            self.st.write(k, r, v.term)
+        return SV(mk_ref(r), Ty(ci.name))
+
+    def check_w(self, label, f, witness, kind="lemma"):
+        """check with an explicit witness function model -> json"""
+        fn = self.fr.func.qualname.split(":")[1] if self.fr.func else "?"
+        return self.st.check(f"{self.ex.prop_id}/{fn}/{label}", f, kind, witness, assume_after=False)
+
+    def model_value(self, model, sv):
+        return concretize(self.ex, sv, model, self.fr.entry_heap or {}, 3)
+
     # model concretisation for replay files
     def concretize(self, sv: SV, model, heap=None, depth=4):
         return concretize(self.ex, sv, model, heap if heap is not None else self.fr.entry_heap, depth)
